@@ -1,31 +1,56 @@
 (* C10 -- the operating point is the stable pump/system intersection right of the minimum-friction flow.
-   Statements only; proofs in Lemmas/LC10.v.  Model: Models/OpPoint.v = find_operating_point with scipy's secant
-   iteration written out (compared bit for bit, incl. the visited flows, with the real method). *)
+   Statements only; proofs in Lemmas/LC10.v.  Model: Models/OpPoint.v = find_operating_point (after the repair: the
+   unbracketed secant iteration of scipy written out, guarded, with the bracketing solver as an oracle behind it),
+   compared bit for bit, incl. the visited flows, with the real method. *)
 From Coq Require Import Reals List Bool.
 From DHV Require Import NumOps RInst OpPoint LC10.
 Import ListNotations.
 Local Open Scope R_scope.
 
 (* pump head below system head at the minimum-friction flow -> OperatingPointError *)
-Theorem C10_infeasible : forall (gap : R -> R) (qimin qlast hsys hpump : R), hpump < hsys ->
-  find_operating_point RN gap qimin qlast hsys hpump = (OperatingPointError, []).
+Theorem C10_infeasible : forall (gap : R -> R) (raises : R -> bool) (qimin qlast hsys hpump : R) (bc : bool) (br hs hp : R),
+  hpump < hsys -> find_operating_point RN gap raises qimin qlast hsys hpump bc br hs hp = (OperatingPointError, []).
 Proof. exact LC10.infeasible. Qed.
 Print Assumptions C10_infeasible.
 
-(* in every case (every head-gap function): a root that the secant search reports as converged, or
-   OperatingPointError; the single other outcome is scipy's ValueError when its two starting flows coincide, i.e.
-   when the minimum-friction flow equals the largest tabulated flow.  (An exception raised while EVALUATING the
-   head gap propagates; that is C02 / C18's domain.) *)
-Theorem C10_outcomes : forall (gap : R -> R) (qimin qlast hsys hpump : R),
-  (exists r vis, find_operating_point RN gap qimin qlast hsys hpump = (Ok r, vis) /\ hsys <= hpump /\
-                 exists vis0, secant RN gap qimin ((qimin + qlast) / 2) = (r, true, vis0)) \/
-  (exists vis, find_operating_point RN gap qimin qlast hsys hpump = (OperatingPointError, vis)) \/
-  (find_operating_point RN gap qimin qlast hsys hpump = (ValueError, []) /\ (qimin + qlast) / 2 = qimin).
+(* in every case (every head-gap function, every set of flows at which evaluating it raises IndexError, every answer
+   of the bracketing solver): a flow is returned only as (a) a root the secant search reports as converged, at or
+   right of the minimum-friction flow, or (b) the bracketing solver's answer, asked only when (a) failed and the system
+   head is above the pump head at the largest flow, and accepted only when it converged and the heads at it agree to
+   1e-6 relative; otherwise OperatingPointError; ValueError exactly when the two starting flows coincide; an
+   IndexError escapes only from the evaluation at the largest tabulated flow (one raised inside the secant search is
+   swallowed: no foreign exception from a search that wandered off). *)
+Theorem C10_outcomes : forall (gap : R -> R) (raises : R -> bool) (qimin qlast hsys hpump : R) (bc : bool) (br hs hp : R),
+  let x1 := (qimin + qlast) / 2 in
+  let fop := find_operating_point RN gap raises qimin qlast hsys hpump bc br hs hp in
+  (exists r vis, fop = (Ok r, vis) /\ hsys <= hpump /\
+     ((qimin <= r /\ secant RN gap raises qimin x1 = (Some (r, true), vis)) \/
+      (r = br /\ accepted RN qimin (fst (secant RN gap raises qimin x1)) = None /\ raises qlast = false /\ 0 < gap qlast /\ bc = true /\
+       Rabs (hs - hp) <= 1 / 1000000 * Rmax (Rabs hs) (Rabs hp)))) \/
+  (exists vis, fop = (OperatingPointError, vis)) \/
+  (fop = (ValueError, []) /\ x1 = qimin) \/
+  (exists vis, fop = (IndexErr, vis) /\ raises qlast = true).
 Proof. exact LC10.outcomes. Qed.
 Print Assumptions C10_outcomes.
 
-(* what "converged" gives: the root is one secant update from the last evaluated flow b, within 1.48e-8 of it *)
-Theorem C10_converged : forall (gap : R -> R) (x0 x1 r : R) (vis : list R), secant RN gap x0 x1 = (r, true, vis) ->
+(* the landing clause (was: searched only; a theorem after the repair): pump head at least system head at the
+   minimum-friction flow, system head above pump head at the largest tabulated flow, and a bracketing solver that
+   converges to a flow at which the two heads agree to 1e-6 relative -- then a flow IS returned, whatever the
+   unbracketed search did (cycled, wandered out of a table, landed left of qimin): its own converged root at or right of
+   qimin, or else the bracketed one.  That the bracketing solver (scipy, an oracle) answers inside its bracket at a
+   sign change is assumed, not proved. *)
+Theorem C10_lands : forall (gap : R -> R) (raises : R -> bool) (qimin qlast hsys hpump br hs hp : R),
+  hsys <= hpump -> (qimin + qlast) / 2 <> qimin -> raises qlast = false -> 0 < gap qlast ->
+  Rabs (hs - hp) <= 1 / 1000000 * Rmax (Rabs hs) (Rabs hp) ->
+  exists r vis, find_operating_point RN gap raises qimin qlast hsys hpump true br hs hp = (Ok r, vis) /\
+    (r = br \/ (qimin <= r /\ secant RN gap raises qimin ((qimin + qlast) / 2) = (Some (r, true), vis))).
+Proof. exact LC10.lands. Qed.
+Print Assumptions C10_lands.
+
+(* what "converged" gives for the secant search: the root is one secant update from the last evaluated flow b, within
+   1.48e-8 of it *)
+Theorem C10_converged : forall (gap : R -> R) (raises : R -> bool) (x0 x1 r : R) (vis : list R),
+  secant RN gap raises x0 x1 = (Some (r, true), vis) ->
   exists a b, r = secant_step RN a (gap a) b (gap b) /\ Rabs (r - b) <= 148 / 10000000000 /\ gap b <> gap a.
 Proof. exact LC10.secant_converged. Qed.
 Print Assumptions C10_converged.
